@@ -475,6 +475,7 @@ func c17(r *Report, s *Sem) {
 		})
 		r.Check(R6, "func "+fnName(h)+" / forwards all arguments in order", p.pos(h.Pos()), ok, "")
 	}
+	r.Import(s, "C03", "R5", "R6", "the remote node a session's handlers see is the node announced to its client: the established envelope's To and channel.remoteNode are both the node handed in by the authentication loop, result #0 of the registration callback, unchanged", 3)
 }
 
 // canHoldSessionData: values of type t can (transitively) hold a channel, a transport, a node or a string id.
